@@ -74,6 +74,7 @@ namespace sim
          { "signed_rule_with_action", RC::INTEGER },
          { "maximum_rule_with_action", RC::INTEGER },
          { "hk_ca", RC::W_CONTROL_ACTION },
+         { "hk_safe", RC::TC_RF_ANY },
          { "w_as", RC::W_CHANGE_STATE },
          { "mi_raise_a", RC::MI_RAISE },
          { "mi_raise_d", RC::MI_RAISE },
